@@ -152,6 +152,13 @@ def multi_worker(kp, job):
             ds = ''.join(rng.sample(list(tokens.REST_DECO), rng.randint(0, 2)))
             pos = rng.choice('abcdefgABCDEFG') * rng.randint(1, 3)
             cell = rng.choice(['4', '8.', '2', '16']) + rng.choice(['r' + pos + ds, 'r' + ds + pos])
+        if it % 8 == 3:
+            # augmentation dots written as signifiers (after the pitch '4c.', '4c..', or before the duration '.4c') on one note
+            # of the cell: the grammar reads them as decorations, the duration group keeps its own dots
+            parts = cell.split(' ')
+            k = rng.randrange(len(parts))
+            parts[k] = (parts[k] + rng.choice(['.', '..'])) if rng.random() < 0.7 else ('.' + parts[k])
+            cell = ' '.join(parts)
         if it < len(fixed):
             cell = fixed[it]
         text = f'**kern\n*clefG2\n{cell}\n*-\n'
